@@ -62,6 +62,11 @@ def respell(rng, name, allow_hex=True, allow_pad=False):
     return s
 
 
+def requote(k):
+    """a literal spelling of the normalised name k: normalize(requote(k)) == k (every backslash doubled)"""
+    return k.replace('\\', '\\\\')
+
+
 def camel(name):
     """the DOM (camel-case) name of a CSS property name, written independently of cssproperties._toDOMname"""
     parts = name.split('-')
@@ -81,8 +86,8 @@ def gen_decl_ops(rng, names):
     base = rng.sample(names, rng.choice([2, 3, 3])) + [rng.choice(UNKNOWN_NAMES)]
     if rng.random() < 0.5:
         base.append('color')
-    if rng.random() < 0.06:
-        base.append(rng.choice(ESC_NAMES))      # region of the known finding C10-escaped-backslash-name
+    if rng.random() < 0.10:
+        base.append(rng.choice(ESC_NAMES))      # normalised name is not a fixpoint of normalize (fixed finding)
 
     def nm(p_bad=0.04, p_pad=0.05):
         if rng.random() < p_bad:
@@ -418,7 +423,7 @@ class Spec:
         es = self.entries
         names = lastocc([e.nname for e in es])
         w = {'op': show_ops([op])[0]}
-        unstable = [e.nname for e in es if py_normalize(e.nname) != e.nname]
+
         if style.keys() != names:
             return self.fail('keys() enumerates the distinct normalised names, ordered by last occurrence',
                              dict(w, impl=style.keys(), spec=names))
@@ -431,31 +436,28 @@ class Spec:
                 return self.fail('item(i) indexes the distinct names', dict(w, i=i, impl=style.item(i), spec=want))
         allp = style.getProperties(all=True)
         it = list(style)
-        if unstable:
-            # region of C10-escaped-backslash-name: iteration / effective list / look-up by a listed name
-            if None in it or None in style.getProperties():
-                self.ctx.violate('iteration yields one property per distinct name',
-                                 {'ops': show_ops(self.done)}, {'names': names, 'iteration_has_None': True},
-                                 known='C10-escaped-backslash-name')
-            self.stats['known-region:escaped-backslash'] += 1
-            return
+        if any(p is None for p in it) or any(p is None for p in style.getProperties()):
+            return self.fail('iteration and getProperties() yield a property (never None) for every listed name',
+                             dict(w, names=names, iteration=[None if p is None else p.name for p in it],
+                                  getProperties=[None if p is None else p.name for p in style.getProperties()]))
         if [p.name for p in it] != names:
             return self.fail('iteration yields one property per distinct name', dict(w, impl=[p.name for p in it]))
         effl = style.getProperties()
         for j, nme in enumerate(names):
             i = self.eff_idx(nme)
             e = es[i]
-            if it[j] is not allp[i] or effl[j] is not allp[i] or style.getProperty(nme) is not allp[i]:
+            q = requote(nme)        # a literal spelling of the listed (normalised) name
+            if it[j] is not allp[i] or effl[j] is not allp[i] or style.getProperty(q) is not allp[i]:
                 return self.fail('the effective property of a name is the last !important entry, else the last entry',
                                  dict(w, name=nme, spec_index=i,
-                                      impl_index=[k for k, p in enumerate(allp) if p is style.getProperty(nme)]))
-            for sp in (nme, nme.upper(), '\\' + nme if nme[:1] and nme[0] not in HEX else nme):
+                                      impl_index=[k for k, p in enumerate(allp) if p is style.getProperty(q)]))
+            for sp in (q, q.upper(), '\\' + q if q[:1] and q[0] not in HEX and q[0] != '\\' else q):
                 if style.getPropertyValue(sp) != e.value or style.getPropertyPriority(sp) != e.prio \
                         or style[sp] != e.value or sp not in style:
                     return self.fail('value / priority / membership by any spelling of the name',
                                      dict(w, spelling=sp, impl=[style.getPropertyValue(sp), style.getPropertyPriority(sp),
                                                                 sp in style], spec=[e.value, e.prio, True]))
-            one = style.getProperties(nme, all=True)
+            one = style.getProperties(q, all=True)
             if [p for p in allp if p.name == nme] != one:
                 return self.fail('getProperties(name, all=True) lists every entry of the name in order', dict(w, name=nme))
         for absent in ('no-such-name', 'x' + (names[0] if names else 'y')):
@@ -493,11 +495,11 @@ VAR_VALUES_BAD = ['}', '', ' ', ':', '1;2 x:']
 def gen_var_ops(rng):
     base = rng.sample(VAR_NAMES, 3)
 
-    def nm(p_odd=0.04):
+    def nm(p_odd=0.08):
         r = rng.random()
         if r < p_odd:
             return rng.choice([' x', 'x/**/', 'a b', '1k', '', '\\78 ', 'x '])
-        if r < p_odd + 0.02:
+        if r < p_odd + 0.04:
             return rng.choice(ESC_NAMES)
         b = rng.choice(base)
         return b if rng.random() < 0.4 else respell(rng, b, allow_hex=False)
@@ -577,5 +579,5 @@ def list_variables(text):
         name, _, value = chunk.partition(':')
         # the serializer separates items by "\n" (and pads comments with blanks): strip that layout only
         name = re.sub(r'^[ ]*\n[ \n]*', '', name) if '\n' in name else name
-        out.append((py_normalize(name.lstrip('\n')), ' '.join(value.split())))
+        out.append((name.lstrip('\n'), ' '.join(value.split())))
     return out
